@@ -83,10 +83,10 @@ def scheduleLoop (s : State τ) (e : Env) : List Nat → Except PyErr (State τ 
       let (s1, e1) ←
         if book.isEmpty then do
           let col ← s.node2collection.get n
-          let e1 ← e.sendRunAll n
+          let e1 ← if e.flags.shuttingDown n then pure e else e.sendRunAll n      -- a node that is already down is sent nothing
           pure ({ s with node2pending := s.node2pending.set n (List.range col.length) }, e1.shutdown n)
         else do
-          let e1 ← e.sendRun n book
+          let e1 ← if e.flags.shuttingDown n then pure e else e.sendRun n book
           pure (s, e1)
       scheduleLoop { s1 with started := s1.started ++ [n] } e1 t
 
